@@ -219,4 +219,230 @@ Proof.
       * intros Hs. rewrite (all_ok_next s Hs) in Hn. discriminate.
 Qed.
 
+(* ---------- generic induction over `each` and `run` ---------- *)
+
+Definition req_ok (r : request) : Prop :=
+  (attempts r <= retry_bound)%nat /\ stops_at_answer (r_outcomes r) = true.
+
+Lemma each_inv (I : state -> Prop) (P : request -> Prop) (Q : result -> Prop) f :
+  Q Continue ->
+  (forall st w, I st -> let '(st', res, t) := f st w in I st' /\ Forall P t /\ Q res) ->
+  forall ws st, I st -> let '(st', res, t) := each f st ws in I st' /\ Forall P t /\ Q res.
+Proof.
+  intros HQ Hf. induction ws as [|w ws IH]; intros st HI; cbn [each].
+  - auto.
+  - specialize (Hf st w HI). destruct (f st w) as [[st1 res] t1]. destruct Hf as (HI1 & HP1 & HQ1).
+    destruct res.
+    + specialize (IH st1 HI1). destruct (each f st1 ws) as [[st2 res2] t2]. destruct IH as (HI2 & HP2 & HQ2).
+      splits; try assumption. apply Forall_app. split; assumption.
+    + auto.
+Qed.
+
+Lemma run_inv (I : state -> Prop) (P : request -> Prop) (Q : result -> Prop) dir :
+  Q Continue ->
+  (forall st c, I st -> let '(st', res, t) := step sh dir st c in I st' /\ Forall P t /\ Q res) ->
+  forall cs st, I st -> let '(st', res, t) := run sh dir st cs in I st' /\ Forall P t /\ Q res.
+Proof.
+  intros HQ Hf. induction cs as [|c cs IH]; intros st HI; cbn [run].
+  - auto.
+  - specialize (Hf st c HI). destruct (step sh dir st c) as [[st1 res] t1]. destruct Hf as (HI1 & HP1 & HQ1).
+    destruct res.
+    + specialize (IH st1 HI1). destruct (run sh dir st1 cs) as [[st2 res2] t2]. destruct IH as (HI2 & HP2 & HQ2).
+      splits; try assumption. apply Forall_app. split; assumption.
+    + auto.
+Qed.
+
+(* ---------- at most three attempts, and the script survives ---------- *)
+
+Definition lan_ok (st : state) : Prop := healthy (s_plan st) lan.
+
+(* the reasons the device layer can give for an abort *)
+Definition device_abort (r : result) : Prop :=
+  r = Abort AbWorkflow \/ r = Abort AbAttribute \/ r = Abort AbType.
+Definition survives (r : result) : Prop := ~ device_abort r.
+
+Lemma stepped_healthy st st' d k h : plan_stepped st st' d k -> healthy (s_plan st) h -> healthy (s_plan st') h.
+Proof. intros [n ->] H. apply healthy_plan_set_skipn. exact H. Qed.
+
+(* a request through a retried method, or a broadcast on a LAN that works *)
+Lemma request_then_ok st d k pl :
+  lan_ok st -> (wrapped_all k = true \/ d = lan) ->
+  let '(st', res, t) := request_then sh st d k pl in
+  lan_ok st' /\ Forall req_ok t /\ res = Continue.
+Proof.
+  intros Hlan Hk. unfold request_then. pose proof (send_spec st d k pl) as H.
+  destruct (send sh st d k pl) as [[st' sn] rq].
+  destruct H as (_ & _ & _ & Hp & _ & _ & Hlen & Hstop & Hsn & Hall).
+  splits.
+  - eapply stepped_healthy; eassumption.
+  - constructor; [|constructor]. split; assumption.
+  - destruct sn; try reflexivity. destruct Hsn as (Hw & _). rewrite wrapped_eq in Hw.
+    destruct Hk as [Hk | ->]; [congruence|].
+    destruct (Hall (Hlan k)) as [E _]. discriminate.
+Qed.
+
+(* the matrix commands address cells inside a matrix whose size is known *)
+Definition matrix_ready (dir : directory) (c : cmd) : bool :=
+  match c with
+  | CMatrix n rows cols _ =>
+      match find_light dir n with
+      | Some w =>
+          match w_kind w with
+          | WMatrix None => false
+          | WMatrix (Some (h, wd)) => rect_ok (span rows h) (span cols wd) h wd
+          | _ => rect_ok (span rows 255) (span cols 255) 255 255
+          end
+      | None => rect_ok (span rows 255) (span cols 255) 255 255
+      end
+  | _ => true
+  end.
+
+Definition script_abort (dir : directory) (c : cmd) (res : result) : Prop :=
+  res = Continue \/ (matrix_ready dir c = false /\ (res = Abort AbSize \/ res = Abort AbIndex)).
+
+Lemma step_ok dir st c :
+  lan_ok st ->
+  let '(st', res, t) := step sh dir st c in
+  lan_ok st' /\ Forall req_ok t /\ script_abort dir c res.
+Proof.
+  intros Hlan. unfold script_abort.
+  assert (Hone : forall dur st w, lan_ok st ->
+            let '(st', res, t) := color_one sh dur st w in lan_ok st' /\ Forall req_ok t /\ res = Continue).
+  { intros dur st0 w H0. unfold color_one. apply request_then_ok; [exact H0|left; reflexivity]. }
+  assert (Hpow : forall on dur st w, lan_ok st ->
+            let '(st', res, t) := power_one sh on dur st w in lan_ok st' /\ Forall req_ok t /\ res = Continue).
+  { intros on dur st0 w H0. unfold power_one. apply request_then_ok; [exact H0|left; reflexivity]. }
+  assert (Hrt : forall d k pl, (wrapped_all k = true \/ d = lan) ->
+            let '(st', res, t) := request_then sh st d k pl in
+            lan_ok st' /\ Forall req_ok t /\ (res = Continue \/ (true = false /\ (res = Abort AbSize \/ res = Abort AbIndex)))).
+  { intros d k pl Hk. pose proof (request_then_ok st d k pl Hlan Hk) as H.
+    destruct (request_then sh st d k pl) as [[st' res] t]. destruct H as (? & ? & ?). auto. }
+  assert (Hskip : lan_ok st /\ Forall req_ok (@nil request) /\
+                  (Continue = Continue \/ (true = false /\ (Continue = Abort AbSize \/ Continue = Abort AbIndex)))) by auto.
+  assert (Heach : forall f ws, (forall st w, lan_ok st -> let '(st', res, t) := f st w in lan_ok st' /\ Forall req_ok t /\ res = Continue) ->
+            let '(st', res, t) := each f st ws in
+            lan_ok st' /\ Forall req_ok t /\ (res = Continue \/ (true = false /\ (res = Abort AbSize \/ res = Abort AbIndex)))).
+  { intros f ws Hf. pose proof (each_inv lan_ok req_ok (fun r => r = Continue) f eq_refl Hf ws st Hlan) as H.
+    destruct (each f st ws) as [[st' res] t]. destruct H as (? & ? & ?). auto. }
+  destruct c as [v | t dur | t on dur | n first last dur | n rows cols dur | n]; cbn [step].
+  - auto.
+  - destruct t; cbn [resolve].
+    + apply Hrt. right; reflexivity.
+    + destruct (find_light dir n); [|exact Hskip]. apply Heach. intros; apply Hone; assumption.
+    + destruct (members w_group dir n); [|exact Hskip]. apply Heach. intros; apply Hone; assumption.
+    + destruct (members w_loc dir n); [|exact Hskip]. apply Heach. intros; apply Hone; assumption.
+  - destruct t; cbn [resolve].
+    + apply Hrt. right; reflexivity.
+    + destruct (find_light dir n); [|exact Hskip]. apply Heach. intros; apply Hpow; assumption.
+    + destruct (members w_group dir n); [|exact Hskip]. apply Heach. intros; apply Hpow; assumption.
+    + destruct (members w_loc dir n); [|exact Hskip]. apply Heach. intros; apply Hpow; assumption.
+  - destruct (find_light dir n) as [w|]; [|exact Hskip].
+    destruct (w_kind w); try exact Hskip. apply Hrt. left; reflexivity.
+  - cbn [matrix_ready]. destruct (find_light dir n) as [w|].
+    + destruct (w_kind w) as [|z|[[h wd]|]].
+      * destruct (rect_ok _ _ _ _); cbn [negb]; [|auto 6]. destruct Hgood as (_ & _ & _ & -> & _). splits; auto.
+      * destruct (rect_ok _ _ _ _); cbn [negb]; [|auto 6]. destruct Hgood as (_ & _ & _ & -> & _). splits; auto.
+      * destruct (rect_ok _ _ _ _); cbn [negb]; [|auto 6].
+        pose proof (Hrt (w_dev w) KSetTile (cells h wd (span rows h) (span cols wd) (raw_color (s_regs st)) ++ [clamp32 dur; wd; h]) (or_introl eq_refl)) as H.
+        destruct (request_then sh st (w_dev w) KSetTile _) as [[st' res] t]. destruct H as (? & ? & [?|[? _]]); [auto|discriminate].
+      * auto 6.
+    + destruct (rect_ok _ _ _ _); cbn [negb]; [|auto 6]. splits; auto.
+  - destruct (find_light dir n) as [w|]; [|exact Hskip].
+    destruct (w_kind w); try exact Hskip.
+    pose proof (send_spec st (w_dev w) KGetColor []) as H.
+    destruct (send sh st (w_dev w) KGetColor []) as [[st' sn] rq].
+    destruct H as (_ & _ & _ & Hp & _ & _ & Hlen & Hstop & Hsn & Hall).
+    assert (Hl' : lan_ok st') by (eapply stepped_healthy; eassumption).
+    assert (Hrq : Forall req_ok [rq]) by (constructor; [split; assumption|constructor]).
+    destruct sn.
+    + destruct (tainted st (w_dev w)); splits; auto.
+    + destruct Hgood as (_ & _ & -> & _). splits; auto.
+    + destruct Hsn as (Hw & _). rewrite wrapped_eq in Hw. discriminate.
+Qed.
+
+(* without any assumption on the plan: every request is attempted at most three times *)
+Lemma send_req_ok st d k pl : req_ok (snd (send sh st d k pl)).
+Proof.
+  pose proof (send_spec st d k pl) as H. destruct (send sh st d k pl) as [[st' sn] rq].
+  destruct H as (_ & _ & _ & _ & _ & _ & Hlen & Hstop & _). split; assumption.
+Qed.
+
+Lemma request_then_trace st d k pl :
+  let '(st', res, t) := request_then sh st d k pl in True /\ Forall req_ok t /\ True.
+Proof.
+  unfold request_then. pose proof (send_req_ok st d k pl) as H.
+  destruct (send sh st d k pl) as [[st' sn] rq]. splits; auto.
+Qed.
+
+Lemma step_trace dir st c :
+  let '(st', res, t) := step sh dir st c in True /\ Forall req_ok t /\ True.
+Proof.
+  assert (Hskip : True /\ Forall req_ok (@nil request) /\ True) by auto.
+  assert (Heach1 : forall dur ws, let '(st', res, t) := each (color_one sh dur) st ws in True /\ Forall req_ok t /\ True).
+  { intros dur ws. apply (each_inv (fun _ => True) req_ok (fun _ => True)); auto.
+    intros st0 w _. apply request_then_trace. }
+  assert (Heach2 : forall on dur ws, let '(st', res, t) := each (power_one sh on dur) st ws in True /\ Forall req_ok t /\ True).
+  { intros on dur ws. apply (each_inv (fun _ => True) req_ok (fun _ => True)); auto.
+    intros st0 w _. apply request_then_trace. }
+  destruct c as [v | t dur | t on dur | n first last dur | n rows cols dur | n]; cbn [step].
+  - auto.
+  - destruct t; cbn [resolve]; try apply request_then_trace.
+    + destruct (find_light dir n); [apply Heach1|exact Hskip].
+    + destruct (members w_group dir n); [apply Heach1|exact Hskip].
+    + destruct (members w_loc dir n); [apply Heach1|exact Hskip].
+  - destruct t; cbn [resolve]; try apply request_then_trace.
+    + destruct (find_light dir n); [apply Heach2|exact Hskip].
+    + destruct (members w_group dir n); [apply Heach2|exact Hskip].
+    + destruct (members w_loc dir n); [apply Heach2|exact Hskip].
+  - destruct (find_light dir n) as [w|]; [|exact Hskip].
+    destruct (w_kind w); try exact Hskip. apply request_then_trace.
+  - destruct (find_light dir n) as [w|].
+    + destruct (w_kind w) as [|z|[[h wd]|]]; try exact Hskip;
+        destruct (negb (rect_ok _ _ _ _)); try exact Hskip; try apply request_then_trace;
+        destruct (sh_matrix_checked sh); exact Hskip.
+    + destruct (negb (rect_ok _ _ _ _)); exact Hskip.
+  - destruct (find_light dir n) as [w|]; [|exact Hskip].
+    destruct (w_kind w); try exact Hskip.
+    pose proof (send_req_ok st (w_dev w) KGetColor []) as H.
+    destruct (send sh st (w_dev w) KGetColor []) as [[st' sn] rq]. cbn [snd] in H.
+    destruct sn; [destruct (tainted st (w_dev w))| destruct (sh_get_fail_ok sh) |]; splits; auto.
+Qed.
+
+(* THEOREM: each request of a run is attempted at most three times (and never re-sent
+   once answered), whatever the plan, the directory and the commands. *)
+Theorem run_attempts_bounded dir st cs :
+  let '(st', res, t) := run sh dir st cs in attempts_bounded t /\ well_retried t.
+Proof.
+  pose proof (run_inv (fun _ => True) req_ok (fun _ => True) dir I (fun st c _ => step_trace dir st c) cs st I) as H.
+  destruct (run sh dir st cs) as [[st' res] t]. destruct H as (_ & H & _).
+  unfold attempts_bounded, well_retried. split; eapply Forall_impl; try exact H; intros r [H1 H2]; assumption.
+Qed.
+
+(* THEOREM: no device outcome, unknown name or capability mismatch ends the script.  The
+   only aborts left are caused by the script's own row/column numbers (AbIndex) and by a
+   matrix light whose size discovery could not learn (AbSize); broadcasts are assumed to
+   leave the host (lan_ok), see broadcast_failure_aborts below. *)
+Theorem run_survives dir st cs :
+  lan_ok st ->
+  let '(st', res, t) := run sh dir st cs in
+  res = Continue \/ ((res = Abort AbSize \/ res = Abort AbIndex) /\ exists c, In c cs /\ matrix_ready dir c = false).
+Proof.
+  intros Hlan. revert st Hlan. induction cs as [|c cs IH]; intros st Hlan; cbn [run]; [auto|].
+  pose proof (step_ok dir st c Hlan) as H. destruct (step sh dir st c) as [[st1 res1] t1].
+  destruct H as (Hl1 & _ & [-> | [Hr Hab]]).
+  - specialize (IH st1 Hl1). destruct (run sh dir st1 cs) as [[st2 res2] t2].
+    destruct IH as [-> | [Hab (c' & Hin & Hc')]]; [auto|]. right. split; [exact Hab|]. exists c'. split; [right; exact Hin|exact Hc'].
+  - destruct res1 as [|r]; [destruct Hab; discriminate|]. right. split; [exact Hab|]. exists c. split; [left; reflexivity|exact Hr].
+Qed.
+
+(* in particular: when the matrix commands are addressable the script runs to its end *)
+Corollary run_continues dir st cs :
+  lan_ok st -> Forall (fun c => matrix_ready dir c = true) cs ->
+  let '(st', res, t) := run sh dir st cs in res = Continue.
+Proof.
+  intros Hlan Hall. pose proof (run_survives dir st cs Hlan) as H.
+  destruct (run sh dir st cs) as [[st' res] t]. destruct H as [H | [_ (c & Hin & Hc)]]; [exact H|].
+  rewrite Forall_forall in Hall. rewrite (Hall c Hin) in Hc. discriminate.
+Qed.
+
 End WithShapes.
